@@ -801,4 +801,1776 @@ theorem checkDataframe_ok {h : Heap} {i : Nat} {fr : Frame} {h' : Heap} (hc : ch
               simp [hul] at hc
               exact ⟨hl, hd', es, tm, hU, acc, rfl, rfl, hul, hc.symm⟩
 
+
+theorem UpdInv.init (empty : Bool) (b : Heap) (acc0 : Acc)
+    (hb : ∀ l (r : Nat), (l, r) ∈ acc0 → r < b.cols.next) : UpdInv empty b b acc0 acc0 [] where
+  tmetas := rfl
+  dsets := rfl
+  infos := rfl
+  dicts := rfl
+  fmts := rfl
+  cols := Store.Ext.refl _
+  bound := hb
+  old := fun _ _ h => h
+  new := fun l r h1 h2 => by rw [h1] at h2; cases h2
+  all := fun _ l hl => by simp [kinds, assoc] at hl
+
+/-- every object of `h`, of every kind, is still there in `h'`, unchanged -/
+structure HeapExt (h h' : Heap) : Prop where
+  dsets : Store.Ext h.dsets h'.dsets
+  fmts : Store.Ext h.fmts h'.fmts
+  cols : Store.Ext h.cols h'.cols
+  dicts : Store.Ext h.dicts h'.dicts
+  tmetas : Store.Ext h.tmetas h'.tmetas
+  infos : Store.Ext h.infos h'.infos
+
+theorem HeapExt.refl (h : Heap) : HeapExt h h :=
+  ⟨Store.Ext.refl _, Store.Ext.refl _, Store.Ext.refl _, Store.Ext.refl _, Store.Ext.refl _, Store.Ext.refl _⟩
+
+theorem HeapExt.trans {a b c : Heap} (h1 : HeapExt a b) (h2 : HeapExt b c) : HeapExt a c :=
+  ⟨h1.dsets.trans h2.dsets, h1.fmts.trans h2.fmts, h1.cols.trans h2.cols, h1.dicts.trans h2.dicts,
+   h1.tmetas.trans h2.tmetas, h1.infos.trans h2.infos⟩
+
+/-- unit registered for label `l` in a dict (`None` when the label is not registered) -/
+def unitIn (h : Heap) (es : List (Label × Ref)) (l : Label) : Option Str :=
+  (assoc es l).bind (fun r => (h.cols.get r).map (fun cm => cm.unit))
+
+/-- what a successful `__finalize__` that installs metadata leaves behind -/
+structure FinFacts (h : Heap) (m : Option Str) (o : Other) (fr : Frame) (h' : Heap) (i : Nat) (w : List Warn)
+    (src : List (Option Ref)) (warned : Bool) (d0 : Ref) (rest : List Ref) (parents : List Origin) (strict : Bool)
+    (tm0 : TMeta) (xs : List Str) (items : List (Label × ColMeta)) (ordered : List (Label × Ref)) : Prop where
+  sel : selectSources m o = .ok (src, warned)
+  warn : w = (if warned then [Warn.unknownMethod] else [])
+  src_data : src.filterMap id = d0 :: rest
+  origins : originsOf h (d0 :: rest) = .ok parents
+  meta0 : metaOf h d0 = .ok tm0
+  dests0 : h.dsets.get tm0.dests = some xs
+  src_items : sourceItems h (d0 :: rest) = .ok items
+  ext : HeapExt h h'
+  info_ref : i = h.infos.next
+  info : h'.infos.get i = some ⟨h.tmetas.next, h.dicts.next, some fr.state⟩
+  tmeta : h'.tmetas.get h.tmetas.next = some ⟨tm0.name, h.dsets.next, .node none parents (some (pandasOp m)), false, strict⟩
+  dests : h'.dsets.get h.dsets.next = some xs.eraseDups
+  dict : h'.dicts.get h.dicts.next = some ordered
+  infos_next : h'.infos.next = h.infos.next + 1
+  tmetas_next : h'.tmetas.next = h.tmetas.next + 1
+  dicts_next : h'.dicts.next = h.dicts.next + 1
+  dsets_next : h'.dsets.next = h.dsets.next + 1
+  fresh : ∀ l (r : Nat), (l, r) ∈ ordered → h.cols.next ≤ r ∧ r < h'.cols.next ∧ ∃ cm, h'.cols.get r = some cm ∧
+    ∀ (f : Nat), cm.dispFmt = some f → h.fmts.next ≤ f ∧ f < h'.fmts.next ∧ (h'.fmts.get f).isSome
+  units : ∀ l, unitIn h' ordered l =
+    if l ∈ fr.labels then
+      match assoc items l with
+      | some c => some c.unit
+      | none => if fr.empty then none else (assoc (kinds fr.cols) l).bind unitFromKind
+    else none
+  agree : ∀ l c c', l ∈ fr.labels → (l, c) ∈ items → (l, c') ∈ items → c.unit = c'.unit
+
+
+theorem assoc_kinds_isSome (cs : List (Label × Str × Char)) (l : Label) (hl : l ∈ cs.map (fun c => c.1)) :
+    (assoc (kinds cs) l).isSome := by
+  induction cs with
+  | nil => simp at hl
+  | cons c rest ih =>
+    obtain ⟨l0, d0, k0⟩ := c
+    by_cases h0 : l0 = l
+    · simp [kinds, assoc, h0]
+    · have : l ∈ rest.map (fun c => c.1) := by
+        simp at hl
+        rcases hl with hl | hl
+        · exact absurd hl.symm h0
+        · simpa using hl
+      have := ih this
+      simpa [kinds, assoc, h0] using this
+
+theorem finalize_table_facts {h : Heap} {m : Option Str} {oi : Option Ref} {o : Other} {fr : Frame}
+    {h' : Heap} {i : Nat} {w : List Warn} (hf : finalize h m oi o fr = .ok (h', .table i, w)) :
+    ∃ src warned d0 rest parents strict tm0 xs items ordered,
+      FinFacts h m o fr h' i w src warned d0 rest parents strict tm0 xs items ordered := by
+  unfold finalize at hf
+  cases hc : combine h m oi o fr.labels with
+  | error e => simp [hc] at hf
+  | ok p =>
+    obtain ⟨hC, ri, w'⟩ := p
+    cases ri with
+    | none => simp [hc] at hf
+    | some i' =>
+      simp only [hc] at hf
+      cases hcd : checkDataframe hC i' fr with
+      | error e => simp [hcd] at hf
+      | ok hF =>
+        simp [hcd] at hf
+        obtain ⟨rfl, rfl, rfl⟩ := hf
+        obtain ⟨src, warned, d0, rest, parents, ns1, ns, tm0, h1, mref, items, h2, acc,
+          hsel, hw, hdata, hor, hn1, hn2, hm0, hnt, hit, hl, hi, hC'⟩ := combine_some hc
+        obtain ⟨hmref, xs, hxs, hh1⟩ := newTableMeta_ok hnt
+        have inv := combineLoop_inv (b := h1) items hl (LoopInv.init fr.labels h1)
+        simp only [List.nil_append] at inv
+        -- the heap before the loop, field by field
+        have e_cols : h1.cols = h.cols := by rw [hh1]
+        have e_fmts : h1.fmts = h.fmts := by rw [hh1]
+        have e_dicts : h1.dicts = h.dicts := by rw [hh1]
+        have e_infos : h1.infos = h.infos := by rw [hh1]
+        have e_dsets : h1.dsets = (h.dsets.alloc xs.eraseDups).1 := by rw [hh1]
+        have e_tm : h1.tmetas = (h.tmetas.alloc ⟨tm0.name, tm0.dests, .node none parents (some (pandasOp m)), false, !ns⟩).1.write
+            h.tmetas.next ⟨tm0.name, h.dsets.next, .node none parents (some (pandasOp m)), false, !ns⟩ := by rw [hh1]
+        -- the consultation of the new info
+        obtain ⟨inf, hinf, hcase⟩ := checkDataframe_ok hcd
+        have hinf' : inf = ⟨mref, h2.dicts.next, none⟩ := by
+          rw [hC', hi] at hinf
+          simpa using hinf.symm
+        subst hinf'
+        rcases hcase with ⟨hlast, _⟩ | ⟨_, hdup, es, tm, hU, accU, hes, htm, hul, hF'⟩
+        · simp at hlast
+        have hes' : es = acc := by
+          rw [hC'] at hes
+          simpa using hes.symm
+        subst hes'
+        have hCcols : hC.cols = h2.cols := by rw [hC']
+        have hCfmts : hC.fmts = h2.fmts := by rw [hC']
+        have hkept : ∀ l (r : Nat), (l, r) ∈ es.filter (fun e => decide (e.1 ∈ fr.labels)) → (l, r) ∈ es :=
+          fun l r hm => (List.mem_filter.1 hm).1
+        have upd := updLoop_inv (b := hC) fr.cols hul
+          (UpdInv.init fr.empty hC _ (fun l r hm => by rw [hCcols]; exact (inv.fresh l r (hkept l r hm)).2.1))
+        simp only [List.nil_append] at upd
+        have hFcols : hF.cols = hU.cols := by rw [hF']
+        have hFfmts : hF.fmts = h2.fmts := by rw [hF']; show hU.fmts = h2.fmts; rw [upd.fmts, hCfmts]
+        -- a column object of the loop's register is the same object in the final heap
+        have hkeep : ∀ (r : Nat), r < h2.cols.next → hF.cols.get r = h2.cols.get r := by
+          intro r hr
+          rw [hFcols, upd.cols.2 r (by rw [hCcols]; exact hr), hCcols]
+        have hassoc_kept : ∀ l, l ∈ fr.labels →
+            assoc (es.filter (fun e => decide (e.1 ∈ fr.labels))) l = assoc es l :=
+          fun l hl => assoc_filter_mem es fr.labels l hl
+        refine ⟨src, warned, d0, rest, parents, !ns, tm0, xs, items,
+          fr.labels.filterMap (fun l => (assoc accU l).map (fun r => (l, r))), ?_⟩
+        exact {
+          sel := hsel
+          warn := hw
+          src_data := hdata
+          origins := hor
+          meta0 := hm0
+          dests0 := hxs
+          src_items := hit
+          ext := {
+            dsets := by
+              have : hF.dsets = (h.dsets.alloc xs.eraseDups).1 := by
+                rw [hF']; show hU.dsets = _; rw [upd.dsets, hC']; show h2.dsets = _; rw [inv.dsets, e_dsets]
+              rw [this]; exact Store.Ext.alloc _ _
+            fmts := by rw [hFfmts, ← e_fmts]; exact inv.fmts
+            cols := by
+              rw [hFcols, ← e_cols]
+              exact Store.Ext.trans inv.cols (by rw [← hCcols]; exact upd.cols)
+            dicts := by
+              have : hF.dicts = ((h.dicts.alloc es).1).write h.dicts.next
+                  (fr.labels.filterMap (fun l => (assoc accU l).map (fun r => (l, r)))) := by
+                rw [hF']; show hU.dicts.write _ _ = _; rw [upd.dicts, hC']
+                show (h2.dicts.alloc es).1.write h2.dicts.next _ = _
+                rw [inv.dicts, e_dicts]
+              rw [this]
+              exact Store.Ext.write (Store.Ext.alloc _ _) _ _ (Nat.le_refl _)
+            tmetas := by
+              have : hF.tmetas = h1.tmetas := by
+                rw [hF']; show hU.tmetas = _; rw [upd.tmetas, hC']; exact inv.tmetas
+              rw [this, e_tm]
+              exact Store.Ext.write (Store.Ext.alloc _ _) _ _ (Nat.le_refl _)
+            infos := by
+              have : hF.infos = ((h.infos.alloc ⟨mref, h2.dicts.next, none⟩).1).write h.infos.next
+                  ⟨mref, h2.dicts.next, some fr.state⟩ := by
+                rw [hF']; show hU.infos.write _ _ = _; rw [upd.infos, hC', hi]
+                show (h2.infos.alloc _).1.write h2.infos.next _ = _
+                rw [inv.infos, e_infos]
+              rw [this]
+              exact Store.Ext.write (Store.Ext.alloc _ _) _ _ (Nat.le_refl _) }
+          info_ref := by rw [hi, inv.infos, e_infos]
+          info := by
+            rw [hF']
+            show (hU.infos.write i' _).get i' = _
+            rw [hmref, inv.dicts, e_dicts]
+            simp
+          tmeta := by
+            have : hF.tmetas = h1.tmetas := by
+              rw [hF']; show hU.tmetas = _; rw [upd.tmetas, hC']; exact inv.tmetas
+            rw [this, e_tm]; simp
+          dests := by
+            have : hF.dsets = (h.dsets.alloc xs.eraseDups).1 := by
+              rw [hF']; show hU.dsets = _; rw [upd.dsets, hC']; show h2.dsets = _; rw [inv.dsets, e_dsets]
+            rw [this]; simp
+          dict := by
+            rw [hF']
+            show (hU.dicts.write h2.dicts.next _).get h.dicts.next = _
+            rw [inv.dicts, e_dicts]; simp
+          infos_next := by
+            have : hF.infos = ((h.infos.alloc ⟨mref, h2.dicts.next, none⟩).1).write h.infos.next
+                ⟨mref, h2.dicts.next, some fr.state⟩ := by
+              rw [hF']; show hU.infos.write _ _ = _; rw [upd.infos, hC', hi]
+              show (h2.infos.alloc _).1.write h2.infos.next _ = _
+              rw [inv.infos, e_infos]
+            rw [this]; rfl
+          tmetas_next := by
+            have : hF.tmetas = h1.tmetas := by
+              rw [hF']; show hU.tmetas = _; rw [upd.tmetas, hC']; exact inv.tmetas
+            rw [this, e_tm]; rfl
+          dicts_next := by
+            have : hF.dicts = ((h.dicts.alloc es).1).write h.dicts.next
+                (fr.labels.filterMap (fun l => (assoc accU l).map (fun r => (l, r)))) := by
+              rw [hF']; show hU.dicts.write _ _ = _; rw [upd.dicts, hC']
+              show (h2.dicts.alloc es).1.write h2.dicts.next _ = _
+              rw [inv.dicts, e_dicts]
+            rw [this]; rfl
+          dsets_next := by
+            have : hF.dsets = (h.dsets.alloc xs.eraseDups).1 := by
+              rw [hF']; show hU.dsets = _; rw [upd.dsets, hC']; show h2.dsets = _; rw [inv.dsets, e_dsets]
+            rw [this]; rfl
+          fresh := by
+            intro l r hm
+            have hacc := mem_ordered (fun l => assoc accU l) fr.labels l r hm
+            have hbU : r < hF.cols.next := by rw [hFcols]; exact upd.bound l r (assoc_mem hacc)
+            cases hk : assoc (es.filter (fun e => decide (e.1 ∈ fr.labels))) l with
+            | some r0 =>
+              have := upd.old l r0 hk
+              rw [hacc] at this
+              have hrr : r = r0 := Option.some.inj this
+              subst hrr
+              obtain ⟨b1, b2, cm, hcm, hfm⟩ := inv.fresh l r (hkept l r (assoc_mem hk))
+              refine ⟨by rw [← e_cols]; exact b1, hbU, cm, by rw [hkeep r b2, hcm], ?_⟩
+              intro f hf
+              obtain ⟨c1, c2, c3⟩ := hfm f hf
+              exact ⟨by rw [← e_fmts]; exact c1, by rw [hFfmts]; exact c2, by rw [hFfmts]; exact c3⟩
+            | none =>
+              obtain ⟨_, b2, k, u, _, _, hget⟩ := upd.new l r hacc hk
+              refine ⟨?_, hbU, ⟨u, none, none⟩, by rw [hFcols, hget], by intro f hf; cases hf⟩
+              have := inv.cols.1
+              rw [hCcols] at b2
+              rw [e_cols] at this
+              omega
+          units := by
+            intro l
+            unfold unitIn
+            rw [assoc_ordered]
+            by_cases hlab : l ∈ fr.labels
+            · simp only [hlab, if_true]
+              cases hit' : assoc items l with
+              | some c =>
+                obtain ⟨r', hr'⟩ := (inv.keys l).2 ⟨hlab, c, assoc_mem hit'⟩
+                cases hacc : assoc es l with
+                | none => exact absurd hr' ((assoc_none_iff es l).1 hacc r')
+                | some r =>
+                  have hmem := assoc_mem hacc
+                  obtain ⟨cm, hcm, hu⟩ := inv.units l r c hmem (assoc_mem hit')
+                  have hb := (inv.fresh l r hmem).2.1
+                  have hk : assoc (es.filter (fun e => decide (e.1 ∈ fr.labels))) l = some r := by
+                    rw [hassoc_kept l hlab, hacc]
+                  rw [upd.old l r hk]
+                  simp [hkeep r hb, hcm, hu]
+              | none =>
+                have hnone : assoc es l = none := by
+                  cases hacc : assoc es l with
+                  | none => rfl
+                  | some r =>
+                    obtain ⟨_, c, hc⟩ := (inv.keys l).1 ⟨r, assoc_mem hacc⟩
+                    exact absurd hc ((assoc_none_iff items l).1 hit' c)
+                have hk : assoc (es.filter (fun e => decide (e.1 ∈ fr.labels))) l = none := by
+                  rw [hassoc_kept l hlab, hnone]
+                cases hemp : fr.empty with
+                | true =>
+                  cases hU' : assoc accU l with
+                  | none => simp
+                  | some r =>
+                    have := (upd.new l r hU' hk).1
+                    rw [hemp] at this; cases this
+                | false =>
+                  have hsome := upd.all hemp l (assoc_kinds_isSome fr.cols l hlab)
+                  cases hU' : assoc accU l with
+                  | none => simp [hU'] at hsome
+                  | some r =>
+                    obtain ⟨_, _, k, u, hk1, hk2, hget⟩ := upd.new l r hU' hk
+                    simp [hFcols, hget, hk1, hk2]
+            · simp [hlab]
+          agree := by
+            intro l c c' hlab hc hc'
+            obtain ⟨r, hr⟩ := (inv.keys l).2 ⟨hlab, c, hc⟩
+            obtain ⟨cm, hcm, hu⟩ := inv.units l r c hr hc
+            obtain ⟨cm', hcm', hu'⟩ := inv.units l r c' hr hc'
+            rw [hcm] at hcm'
+            have : cm = cm' := Option.some.inj hcm'
+            subst this
+            rw [← hu, ← hu'] }
+
+
+/-! ## Reachability, agreement, observations -/
+
+/-- the object exists in `h` -/
+def locOld (h : Heap) : Loc → Prop
+  | .dset r => r < h.dsets.next
+  | .fmt r => r < h.fmts.next
+  | .col r => r < h.cols.next
+  | .dict r => r < h.dicts.next
+  | .tmeta r => r < h.tmetas.next
+  | .info r => r < h.infos.next
+
+/-- the identity has not been handed out in `h` yet -/
+def locFresh (h : Heap) : Loc → Prop
+  | .dset r => h.dsets.next ≤ r
+  | .fmt r => h.fmts.next ≤ r
+  | .col r => h.cols.next ≤ r
+  | .dict r => h.dicts.next ≤ r
+  | .tmeta r => h.tmetas.next ≤ r
+  | .info r => h.infos.next ≤ r
+
+theorem not_old_of_fresh {h : Heap} {x : Loc} (hf : locFresh h x) : ¬ locOld h x := by
+  cases x <;> simp [locFresh, locOld] at * <;> omega
+
+/-- the object with identity `x` has the same content in both heaps -/
+def AgreeOn (h h' : Heap) : Loc → Prop
+  | .dset r => h'.dsets.get r = h.dsets.get r
+  | .fmt r => h'.fmts.get r = h.fmts.get r
+  | .col r => h'.cols.get r = h.cols.get r
+  | .dict r => h'.dicts.get r = h.dicts.get r
+  | .tmeta r => h'.tmetas.get r = h.tmetas.get r
+  | .info r => h'.infos.get r = h.infos.get r
+
+theorem HeapExt.agree {h h' : Heap} (e : HeapExt h h') {x : Loc} (hx : locOld h x) : AgreeOn h h' x := by
+  cases x with
+  | dset r => exact e.dsets.2 r hx
+  | fmt r => exact e.fmts.2 r hx
+  | col r => exact e.cols.2 r hx
+  | dict r => exact e.dicts.2 r hx
+  | tmeta r => exact e.tmetas.2 r hx
+  | info r => exact e.infos.2 r hx
+
+theorem HeapExt.old {h h' : Heap} (e : HeapExt h h') {x : Loc} (hx : locOld h x) : locOld h' x := by
+  cases x with
+  | dset r => exact Nat.lt_of_lt_of_le hx e.dsets.1
+  | fmt r => exact Nat.lt_of_lt_of_le hx e.fmts.1
+  | col r => exact Nat.lt_of_lt_of_le hx e.cols.1
+  | dict r => exact Nat.lt_of_lt_of_le hx e.dicts.1
+  | tmeta r => exact Nat.lt_of_lt_of_le hx e.tmetas.1
+  | info r => exact Nat.lt_of_lt_of_le hx e.infos.1
+
+theorem mem_cols_part (h : Heap) (es : List (Label × Ref)) (x : Loc) :
+    ((∃ a b, (a, b) ∈ es ∧ Loc.col b = x) ∨
+      ∃ a, (∃ a_1 b, (a_1, b) ∈ es ∧
+        (match h.cols.get b with
+          | some cm => cm.dispFmt
+          | none => none) = some a) ∧ Loc.fmt a = x) ↔
+    ∃ x_1 x_2, (x_1, x_2) ∈ es ∧
+      (x = Loc.col x_2 ∨ ∃ cm, h.cols.get x_2 = some cm ∧ ∃ x_3, cm.dispFmt = some x_3 ∧ x = Loc.fmt x_3) := by
+  constructor
+  · rintro (⟨a, b, hm, rfl⟩ | ⟨f, ⟨a, b, hm, hf⟩, rfl⟩)
+    · exact ⟨a, b, hm, Or.inl rfl⟩
+    · cases hc : h.cols.get b with
+      | none => simp [hc] at hf
+      | some cm =>
+        simp [hc] at hf
+        exact ⟨a, b, hm, Or.inr ⟨cm, hc, f, hf, rfl⟩⟩
+  · rintro ⟨a, b, hm, (rfl | ⟨cm, hc, f, hf, rfl⟩)⟩
+    · exact Or.inl ⟨a, b, hm, rfl⟩
+    · exact Or.inr ⟨f, ⟨a, b, hm, by simp [hc, hf]⟩, rfl⟩
+
+/-- membership in `reach`, spelled out -/
+theorem mem_reach {h : Heap} {s : Nat} {x : Loc} :
+    x ∈ reach h s ↔
+      x = .info s ∨ ∃ inf, h.infos.get s = some inf ∧
+        (x = .tmeta inf.tmeta ∨ x = .dict inf.cols ∨
+         (∃ tm, h.tmetas.get inf.tmeta = some tm ∧ x = .dset tm.dests) ∨
+         (∃ es l, ∃ (r : Nat), h.dicts.get inf.cols = some es ∧ (l, r) ∈ es ∧
+            (x = .col r ∨ ∃ cm, ∃ (f : Nat), h.cols.get r = some cm ∧ cm.dispFmt = some f ∧ x = .fmt f))) := by
+  unfold reach
+  cases hi : h.infos.get s with
+  | none => simp
+  | some inf =>
+    cases htm : h.tmetas.get inf.tmeta <;> cases hes : h.dicts.get inf.cols
+    · simp [htm, hes]
+    · simp [htm, hes]
+      exact or_congr_right (or_congr_right (or_congr_right (mem_cols_part h _ x)))
+    · simp [htm, hes]
+    · simp [htm, hes]
+      exact or_congr_right (or_congr_right (or_congr_right (or_congr_right (mem_cols_part h _ x))))
+
+
+theorem obsCols_congr {h h' : Heap} (es : List (Label × Ref))
+    (hc : ∀ l (r : Nat), (l, r) ∈ es → h'.cols.get r = h.cols.get r)
+    (hf : ∀ l (r : Nat) cm (f : Nat), (l, r) ∈ es → h.cols.get r = some cm → cm.dispFmt = some f →
+      h'.fmts.get f = h.fmts.get f) :
+    obsCols h' es = obsCols h es := by
+  induction es with
+  | nil => rfl
+  | cons e rest ih =>
+    obtain ⟨l, r⟩ := e
+    have ih' := ih (fun l r hm => hc l r (List.mem_cons_of_mem _ hm))
+      (fun l r cm f hm => hf l r cm f (List.mem_cons_of_mem _ hm))
+    unfold obsCols
+    rw [hc l r List.mem_cons_self, ih']
+    cases hcm : h.cols.get r with
+    | none => rfl
+    | some cm =>
+      cases hdf : cm.dispFmt with
+      | none => simp [hdf]
+      | some f => simp [hdf, hf l r cm f List.mem_cons_self hcm hdf]
+
+/-- the agreement facts along everything reachable from `s` -/
+structure AgreeReach (h h' : Heap) (s : Nat) : Prop where
+  info : h'.infos.get s = h.infos.get s
+  tmeta : ∀ inf, h.infos.get s = some inf → h'.tmetas.get inf.tmeta = h.tmetas.get inf.tmeta
+  dict : ∀ inf, h.infos.get s = some inf → h'.dicts.get inf.cols = h.dicts.get inf.cols
+  dset : ∀ inf tm, h.infos.get s = some inf → h.tmetas.get inf.tmeta = some tm →
+    h'.dsets.get tm.dests = h.dsets.get tm.dests
+  col : ∀ inf es l (r : Nat), h.infos.get s = some inf → h.dicts.get inf.cols = some es → (l, r) ∈ es →
+    h'.cols.get r = h.cols.get r
+  fmt : ∀ inf es l (r : Nat) cm (f : Nat), h.infos.get s = some inf → h.dicts.get inf.cols = some es → (l, r) ∈ es →
+    h.cols.get r = some cm → cm.dispFmt = some f → h'.fmts.get f = h.fmts.get f
+
+theorem agreeReach_of {h h' : Heap} {s : Nat} (ha : ∀ x, x ∈ reach h s → AgreeOn h h' x) : AgreeReach h h' s where
+  info := ha (.info s) (mem_reach.2 (Or.inl rfl))
+  tmeta := fun inf hi => ha (.tmeta inf.tmeta) (mem_reach.2 (Or.inr ⟨inf, hi, Or.inl rfl⟩))
+  dict := fun inf hi => ha (.dict inf.cols) (mem_reach.2 (Or.inr ⟨inf, hi, Or.inr (Or.inl rfl)⟩))
+  dset := fun inf tm hi htm =>
+    ha (.dset tm.dests) (mem_reach.2 (Or.inr ⟨inf, hi, Or.inr (Or.inr (Or.inl ⟨tm, htm, rfl⟩))⟩))
+  col := fun inf es l r hi hes hm =>
+    ha (.col r) (mem_reach.2 (Or.inr ⟨inf, hi, Or.inr (Or.inr (Or.inr ⟨es, l, r, hes, hm, Or.inl rfl⟩))⟩))
+  fmt := fun inf es l r cm f hi hes hm hc hf =>
+    ha (.fmt f) (mem_reach.2 (Or.inr ⟨inf, hi,
+      Or.inr (Or.inr (Or.inr ⟨es, l, r, hes, hm, Or.inr ⟨cm, f, hc, hf, rfl⟩⟩))⟩))
+
+/-- observations depend only on the reachable objects -/
+theorem observe_congr {h h' : Heap} {s : Nat} (ha : ∀ x, x ∈ reach h s → AgreeOn h h' x) :
+    observe h' s = observe h s := by
+  have a := agreeReach_of ha
+  unfold observe
+  rw [a.info]
+  cases hi : h.infos.get s with
+  | none => rfl
+  | some inf =>
+    simp only []
+    rw [a.tmeta inf hi]
+    cases htm : h.tmetas.get inf.tmeta with
+    | none => rfl
+    | some tm =>
+      simp only []
+      rw [a.dset inf tm hi htm]
+      cases hds : h.dsets.get tm.dests with
+      | none => rfl
+      | some ds =>
+        simp only []
+        rw [a.dict inf hi]
+        cases hes : h.dicts.get inf.cols with
+        | none => rfl
+        | some es =>
+          simp only []
+          rw [obsCols_congr es (fun l r hm => a.col inf es l r hi hes hm)
+            (fun l r cm f hm hc hf => a.fmt inf es l r cm f hi hes hm hc hf)]
+
+/-- … and so does reachability itself -/
+theorem reach_congr {h h' : Heap} {s : Nat} (ha : ∀ x, x ∈ reach h s → AgreeOn h h' x) (x : Loc) :
+    x ∈ reach h' s ↔ x ∈ reach h s := by
+  have a := agreeReach_of ha
+  rw [mem_reach, mem_reach]
+  constructor
+  · rintro (h1 | ⟨inf, hi', h1⟩)
+    · exact Or.inl h1
+    · have hi : h.infos.get s = some inf := by rw [← a.info]; exact hi'
+      refine Or.inr ⟨inf, hi, ?_⟩
+      rcases h1 with h1 | h1 | ⟨tm, htm, h1⟩ | ⟨es, l, r, hes, hm, h1⟩
+      · exact Or.inl h1
+      · exact Or.inr (Or.inl h1)
+      · exact Or.inr (Or.inr (Or.inl ⟨tm, by rw [← a.tmeta inf hi]; exact htm, h1⟩))
+      · have hes' : h.dicts.get inf.cols = some es := by rw [← a.dict inf hi]; exact hes
+        refine Or.inr (Or.inr (Or.inr ⟨es, l, r, hes', hm, ?_⟩))
+        rcases h1 with h1 | ⟨cm, f, hc, hf, h1⟩
+        · exact Or.inl h1
+        · exact Or.inr ⟨cm, f, by rw [← a.col inf es l r hi hes' hm]; exact hc, hf, h1⟩
+  · rintro (h1 | ⟨inf, hi, h1⟩)
+    · exact Or.inl h1
+    · refine Or.inr ⟨inf, by rw [a.info]; exact hi, ?_⟩
+      rcases h1 with h1 | h1 | ⟨tm, htm, h1⟩ | ⟨es, l, r, hes, hm, h1⟩
+      · exact Or.inl h1
+      · exact Or.inr (Or.inl h1)
+      · exact Or.inr (Or.inr (Or.inl ⟨tm, by rw [a.tmeta inf hi]; exact htm, h1⟩))
+      · refine Or.inr (Or.inr (Or.inr ⟨es, l, r, by rw [a.dict inf hi]; exact hes, hm, ?_⟩))
+        rcases h1 with h1 | ⟨cm, f, hc, hf, h1⟩
+        · exact Or.inl h1
+        · exact Or.inr ⟨cm, f, by rw [a.col inf es l r hi hes hm]; exact hc, hf, h1⟩
+
+
+/-! ## Follow-up mutations touch only what is reachable from the mutated info -/
+
+/-- everything reachable from `s` exists -/
+def Alloc (h : Heap) (s : Nat) : Prop := ∀ x, x ∈ reach h s → locOld h x
+
+/-- `h'` results from `h` by a change confined to the objects reachable from `s` (plus new objects) -/
+structure FrameOf (h h' : Heap) (s : Nat) : Prop where
+  mono : ∀ x, locOld h x → locOld h' x
+  agree : ∀ x, locOld h x → x ∉ reach h s → AgreeOn h h' x
+  grow : ∀ x, x ∈ reach h' s → (x ∈ reach h s ∨ locFresh h x) ∧ locOld h' x
+
+theorem FrameOf.refl {h : Heap} {s : Nat} (ha : Alloc h s) : FrameOf h h s where
+  mono := fun _ hx => hx
+  agree := fun x _ _ => by cases x <;> rfl
+  grow := fun x hx => ⟨Or.inl hx, ha x hx⟩
+
+/-- replacing the content of a reachable column object, keeping its format reference -/
+theorem frame_colwrite {h : Heap} {s : Nat} {inf : Info} {es : List (Label × Ref)} {l : Label} {r : Nat}
+    {cm cm' : ColMeta} (ha : Alloc h s) (hi : h.infos.get s = some inf) (hes : h.dicts.get inf.cols = some es)
+    (hm : (l, r) ∈ es) (hc : h.cols.get r = some cm) (hfmt : cm'.dispFmt = cm.dispFmt) :
+    FrameOf h { h with cols := h.cols.write r cm' } s where
+  mono := fun x hx => by cases x <;> exact hx
+  agree := fun x _ hnr => by
+    cases x with
+    | col r' =>
+      have : r' ≠ r := by
+        intro e; subst e
+        exact hnr (mem_reach.2 (Or.inr ⟨inf, hi, Or.inr (Or.inr (Or.inr ⟨es, l, r', hes, hm, Or.inl rfl⟩))⟩))
+      simp [AgreeOn, this]
+    | _ => rfl
+  grow := fun x hx => by
+    have hx' : x ∈ reach h s := by
+      rw [mem_reach] at hx ⊢
+      rcases hx with h1 | ⟨inf', hi', h1⟩
+      · exact Or.inl h1
+      · refine Or.inr ⟨inf', hi', ?_⟩
+        rcases h1 with h1 | h1 | ⟨tm, htm, h1⟩ | ⟨es', l', r', hes', hm', h1⟩
+        · exact Or.inl h1
+        · exact Or.inr (Or.inl h1)
+        · exact Or.inr (Or.inr (Or.inl ⟨tm, htm, h1⟩))
+        · refine Or.inr (Or.inr (Or.inr ⟨es', l', r', hes', hm', ?_⟩))
+          rcases h1 with h1 | ⟨cm2, f, hc2, hf2, h1⟩
+          · exact Or.inl h1
+          · by_cases hrr : r' = r
+            · subst hrr
+              simp at hc2
+              subst hc2
+              exact Or.inr ⟨cm, f, hc, by rw [← hfmt]; exact hf2, h1⟩
+            · simp [hrr] at hc2
+              exact Or.inr ⟨cm2, f, hc2, hf2, h1⟩
+    refine ⟨Or.inl hx', ?_⟩
+    have := ha x hx'
+    cases x <;> exact this
+
+theorem mutate_frame {h : Heap} {s : Nat} {mu : Mut} {h' : Heap} (hm : mutate h s mu = .ok h') (ha : Alloc h s) :
+    FrameOf h h' s := by
+  unfold mutate at hm
+  unfold getInfo at hm
+  cases hi : h.infos.get s with
+  | none => simp [hi] at hm
+  | some inf =>
+    simp only [hi] at hm
+    cases mu with
+    | setName n =>
+      simp only [getTMeta] at hm
+      cases htm : h.tmetas.get inf.tmeta with
+      | none => simp [htm] at hm
+      | some tm =>
+        simp [htm] at hm
+        subst hm
+        exact {
+          mono := fun x hx => by cases x <;> exact hx
+          agree := fun x _ hnr => by
+            cases x with
+            | tmeta r' =>
+              have : r' ≠ inf.tmeta := by
+                intro e; subst e
+                exact hnr (mem_reach.2 (Or.inr ⟨inf, hi, Or.inl rfl⟩))
+              simp [AgreeOn, this]
+            | _ => rfl
+          grow := fun x hx => by
+            have hx' : x ∈ reach h s := by
+              rw [mem_reach] at hx ⊢
+              rcases hx with h1 | ⟨inf', hi', h1⟩
+              · exact Or.inl h1
+              · have : inf' = inf := by simp at hi'; rw [hi] at hi'; exact (Option.some.inj hi').symm
+                subst this
+                refine Or.inr ⟨inf', hi, ?_⟩
+                rcases h1 with h1 | h1 | ⟨tm', htm', h1⟩ | h1
+                · exact Or.inl h1
+                · exact Or.inr (Or.inl h1)
+                · simp at htm'
+                  subst htm'
+                  exact Or.inr (Or.inr (Or.inl ⟨tm, htm, h1⟩))
+                · exact Or.inr (Or.inr (Or.inr h1))
+            refine ⟨Or.inl hx', ?_⟩
+            have := ha x hx'
+            cases x <;> exact this }
+    | addDest d =>
+      simp only [getTMeta] at hm
+      cases htm : h.tmetas.get inf.tmeta with
+      | none => simp [htm] at hm
+      | some tm =>
+        simp only [htm] at hm
+        cases hds : h.dsets.get tm.dests with
+        | none => simp [hds] at hm
+        | some xs =>
+          simp [hds] at hm
+          subst hm
+          exact {
+            mono := fun x hx => by cases x <;> exact hx
+            agree := fun x _ hnr => by
+              cases x with
+              | dset r' =>
+                have : r' ≠ tm.dests := by
+                  intro e; subst e
+                  exact hnr (mem_reach.2 (Or.inr ⟨inf, hi, Or.inr (Or.inr (Or.inl ⟨tm, htm, rfl⟩))⟩))
+                simp [AgreeOn, this]
+              | _ => rfl
+            grow := fun x hx => by
+              have hx' : x ∈ reach h s := by
+                rw [mem_reach] at hx ⊢
+                exact hx
+              refine ⟨Or.inl hx', ?_⟩
+              have := ha x hx'
+              cases x <;> exact this }
+    | setUnit l u =>
+      simp only [getDict, getCol] at hm
+      cases hes : h.dicts.get inf.cols with
+      | none => simp [hes] at hm
+      | some es =>
+        simp only [hes] at hm
+        cases hal : assoc es l with
+        | none => simp [hal] at hm
+        | some r =>
+          simp only [hal] at hm
+          cases hc : h.cols.get r with
+          | none => simp [hc] at hm
+          | some cm =>
+            simp [hc] at hm
+            subst hm
+            exact frame_colwrite ha hi hes (assoc_mem hal) hc rfl
+    | setDispUnit l u =>
+      simp only [getDict, getCol] at hm
+      cases hes : h.dicts.get inf.cols with
+      | none => simp [hes] at hm
+      | some es =>
+        simp only [hes] at hm
+        cases hal : assoc es l with
+        | none => simp [hal] at hm
+        | some r =>
+          simp only [hal] at hm
+          cases hc : h.cols.get r with
+          | none => simp [hc] at hm
+          | some cm =>
+            simp [hc] at hm
+            subst hm
+            exact frame_colwrite ha hi hes (assoc_mem hal) hc rfl
+    | setFmt l spec =>
+      simp only [getDict, getCol] at hm
+      cases hes : h.dicts.get inf.cols with
+      | none => simp [hes] at hm
+      | some es =>
+        simp only [hes] at hm
+        cases hal : assoc es l with
+        | none => simp [hal] at hm
+        | some r =>
+          simp only [hal] at hm
+          cases hc : h.cols.get r with
+          | none => simp [hc] at hm
+          | some cm =>
+            simp only [hc] at hm
+            cases hdf : cm.dispFmt with
+            | none =>
+              simp [hdf] at hm
+              subst hm
+              exact FrameOf.refl ha
+            | some f =>
+              simp [hdf] at hm
+              subst hm
+              exact {
+                mono := fun x hx => by cases x <;> exact hx
+                agree := fun x _ hnr => by
+                  cases x with
+                  | fmt r' =>
+                    have : r' ≠ f := by
+                      intro e; subst e
+                      exact hnr (mem_reach.2 (Or.inr ⟨inf, hi, Or.inr (Or.inr (Or.inr
+                        ⟨es, l, r, hes, assoc_mem hal, Or.inr ⟨cm, r', hc, hdf, rfl⟩⟩))⟩))
+                    simp [AgreeOn, this]
+                  | _ => rfl
+                grow := fun x hx => by
+                  have hx' : x ∈ reach h s := by
+                    rw [mem_reach] at hx ⊢
+                    exact hx
+                  refine ⟨Or.inl hx', ?_⟩
+                  have := ha x hx'
+                  cases x <;> exact this }
+    | addColumn l u =>
+      simp only [getDict] at hm
+      cases hes : h.dicts.get inf.cols with
+      | none => simp [hes] at hm
+      | some es =>
+        simp only [hes] at hm
+        -- every registered column object exists
+        have hold : ∀ l' (r' : Nat), (l', r') ∈ es → r' < h.cols.next := fun l' r' hm' =>
+          ha (.col r') (mem_reach.2 (Or.inr ⟨inf, hi, Or.inr (Or.inr (Or.inr ⟨es, l', r', hes, hm', Or.inl rfl⟩))⟩))
+        cases hal : assoc es l with
+        | none =>
+          simp [hal, Store.alloc] at hm
+          subst hm
+          exact {
+            mono := fun x hx => by
+              cases x with
+              | col r' => exact Nat.lt_succ_of_lt hx
+              | _ => exact hx
+            agree := fun x hox hnr => by
+              cases x with
+              | col r' =>
+                have : r' ≠ h.cols.next := Nat.ne_of_lt hox
+                simp [AgreeOn, this]
+              | dict r' =>
+                have : r' ≠ inf.cols := by
+                  intro e; subst e
+                  exact hnr (mem_reach.2 (Or.inr ⟨inf, hi, Or.inr (Or.inl rfl)⟩))
+                simp [AgreeOn, this]
+              | _ => rfl
+            grow := fun x hx => by
+              rw [mem_reach] at hx
+              have key : (x ∈ reach h s) ∨ x = .col h.cols.next := by
+                rcases hx with h1 | ⟨inf', hi', h1⟩
+                · exact Or.inl (mem_reach.2 (Or.inl h1))
+                · have : inf' = inf := by simp at hi'; rw [hi] at hi'; exact (Option.some.inj hi').symm
+                  subst this
+                  rcases h1 with h1 | h1 | ⟨tm, htm, h1⟩ | ⟨es', l', r', hes', hm', h1⟩
+                  · exact Or.inl (mem_reach.2 (Or.inr ⟨inf', hi, Or.inl h1⟩))
+                  · exact Or.inl (mem_reach.2 (Or.inr ⟨inf', hi, Or.inr (Or.inl h1)⟩))
+                  · exact Or.inl (mem_reach.2 (Or.inr ⟨inf', hi, Or.inr (Or.inr (Or.inl ⟨tm, htm, h1⟩))⟩))
+                  · simp at hes'
+                    subst hes'
+                    rcases List.mem_append.1 hm' with hm' | hm'
+                    · have hne : r' ≠ h.cols.next := Nat.ne_of_lt (hold l' r' hm')
+                      rcases h1 with h1 | ⟨cm2, f, hc2, hf2, h1⟩
+                      · exact Or.inl (mem_reach.2 (Or.inr ⟨inf', hi, Or.inr (Or.inr (Or.inr
+                          ⟨es, l', r', hes, hm', Or.inl h1⟩))⟩))
+                      · simp [hne] at hc2
+                        exact Or.inl (mem_reach.2 (Or.inr ⟨inf', hi, Or.inr (Or.inr (Or.inr
+                          ⟨es, l', r', hes, hm', Or.inr ⟨cm2, f, hc2, hf2, h1⟩⟩))⟩))
+                    · simp at hm'
+                      obtain ⟨rfl, rfl⟩ := hm'
+                      rcases h1 with h1 | ⟨cm2, f, hc2, hf2, h1⟩
+                      · exact Or.inr h1
+                      · simp at hc2
+                        subst hc2
+                        simp at hf2
+              rcases key with hx' | rfl
+              · refine ⟨Or.inl hx', ?_⟩
+                have := ha x hx'
+                cases x with
+                | col r' => exact Nat.lt_succ_of_lt this
+                | _ => exact this
+              · exact ⟨Or.inr (Nat.le_refl _), Nat.lt_succ_self _⟩ }
+        | some old =>
+          simp only [hal] at hm
+          obtain ⟨sold, hsold, st⟩ := updateFrom_ok hm
+          simp [Store.alloc] at hsold st
+          have holdlt : old < h.cols.next := hold l old (assoc_mem hal)
+          have hne0 : old ≠ h.cols.next := Nat.ne_of_lt holdlt
+          simp [hne0] at hsold
+          obtain ⟨cm', hcm', hunit', hfmt'⟩ := st.cols_a
+          exact {
+            mono := fun x hx => by
+              cases x with
+              | col r' =>
+                have hn : h'.cols.next = h.cols.next + 1 := by simpa using st.cols_next
+                show r' < h'.cols.next
+                rw [hn]; exact Nat.lt_succ_of_lt hx
+              | fmt r' => exact Nat.lt_of_lt_of_le hx st.fmts.1
+              | dset r' => simp [locOld] at hx ⊢; rw [st.dsets]; exact hx
+              | dict r' => simp [locOld] at hx ⊢; rw [st.dicts]; exact hx
+              | tmeta r' => simp [locOld] at hx ⊢; rw [st.tmetas]; exact hx
+              | info r' => simp [locOld] at hx ⊢; rw [st.infos]; exact hx
+            agree := fun x hox hnr => by
+              cases x with
+              | col r' =>
+                have h1 : r' ≠ old := by
+                  intro e; subst e
+                  exact hnr (mem_reach.2 (Or.inr ⟨inf, hi, Or.inr (Or.inr (Or.inr
+                    ⟨es, l, r', hes, assoc_mem hal, Or.inl rfl⟩))⟩))
+                have h2 : r' ≠ h.cols.next := Nat.ne_of_lt hox
+                have := st.cols_other r' h1
+                simp [h2] at this
+                exact this
+              | fmt r' => exact st.fmts.2 r' hox
+              | dset r' => simp [AgreeOn]; rw [st.dsets]
+              | dict r' => simp [AgreeOn]; rw [st.dicts]
+              | tmeta r' => simp [AgreeOn]; rw [st.tmetas]
+              | info r' => simp [AgreeOn]; rw [st.infos]
+            grow := fun x hx => by
+              rw [mem_reach] at hx
+              have key : (x ∈ reach h s) ∨ (x = .fmt h.fmts.next ∧ h'.fmts.next = h.fmts.next + 1) := by
+                rcases hx with h1 | ⟨inf', hi', h1⟩
+                · exact Or.inl (mem_reach.2 (Or.inl h1))
+                · have : inf' = inf := by rw [st.infos] at hi'; simp at hi'; rw [hi] at hi'; exact (Option.some.inj hi').symm
+                  subst this
+                  rcases h1 with h1 | h1 | ⟨tm, htm, h1⟩ | ⟨es', l', r', hes', hm', h1⟩
+                  · exact Or.inl (mem_reach.2 (Or.inr ⟨inf', hi, Or.inl h1⟩))
+                  · exact Or.inl (mem_reach.2 (Or.inr ⟨inf', hi, Or.inr (Or.inl h1)⟩))
+                  · rw [st.tmetas] at htm
+                    exact Or.inl (mem_reach.2 (Or.inr ⟨inf', hi, Or.inr (Or.inr (Or.inl ⟨tm, htm, h1⟩))⟩))
+                  · rw [st.dicts] at hes'
+                    simp at hes'
+                    rw [hes] at hes'
+                    have : es' = es := (Option.some.inj hes').symm
+                    subst this
+                    rcases h1 with h1 | ⟨cm2, f, hc2, hf2, h1⟩
+                    · exact Or.inl (mem_reach.2 (Or.inr ⟨inf', hi, Or.inr (Or.inr (Or.inr
+                        ⟨es', l', r', hes, hm', Or.inl h1⟩))⟩))
+                    · by_cases hro : r' = old
+                      · subst hro
+                        rw [hcm'] at hc2
+                        have : cm' = cm2 := Option.some.inj hc2
+                        subst this
+                        rcases hfmt' with hk | ⟨hk, hn⟩
+                        · rw [hk] at hf2
+                          exact Or.inl (mem_reach.2 (Or.inr ⟨inf', hi, Or.inr (Or.inr (Or.inr
+                            ⟨es', l', r', hes, hm', Or.inr ⟨sold, f, hsold, hf2, h1⟩⟩))⟩))
+                        · rw [hk] at hf2
+                          have : f = h.fmts.next := by simpa using hf2.symm
+                          subst this
+                          exact Or.inr ⟨h1, by simpa using hn⟩
+                      · have hlt := hold l' r' hm'
+                        have hne : r' ≠ h.cols.next := Nat.ne_of_lt hlt
+                        have := st.cols_other r' hro
+                        simp [hne] at this
+                        rw [this] at hc2
+                        exact Or.inl (mem_reach.2 (Or.inr ⟨inf', hi, Or.inr (Or.inr (Or.inr
+                          ⟨es', l', r', hes, hm', Or.inr ⟨cm2, f, hc2, hf2, h1⟩⟩))⟩))
+              rcases key with hx' | ⟨rfl, hn⟩
+              · refine ⟨Or.inl hx', ?_⟩
+                have hxo := ha x hx'
+                cases x with
+                | col r' =>
+                  have hn : h'.cols.next = h.cols.next + 1 := by simpa using st.cols_next
+                  show r' < h'.cols.next
+                  rw [hn]; exact Nat.lt_succ_of_lt hxo
+                | fmt r' => exact Nat.lt_of_lt_of_le hxo st.fmts.1
+                | dset r' => simp [locOld] at hxo ⊢; rw [st.dsets]; exact hxo
+                | dict r' => simp [locOld] at hxo ⊢; rw [st.dicts]; exact hxo
+                | tmeta r' => simp [locOld] at hxo ⊢; rw [st.tmetas]; exact hxo
+                | info r' => simp [locOld] at hxo ⊢; rw [st.infos]; exact hxo
+              · refine ⟨Or.inr (Nat.le_refl _), ?_⟩
+                show h.fmts.next < h'.fmts.next
+                rw [hn]; exact Nat.lt_succ_self _ }
+
+
+/-! # The property
+
+  `Spec.*` are the declarative readings of the C05 statement, with literal constants. -/
+
+namespace Spec
+
+/-- the methods `_combine_tables` treats as "single source = `other`" (frame.py:83-87) -/
+def safeMethods : List Str :=
+  ["append".toList, "astype".toList, "copy".toList, "fillna".toList, "groupby".toList, "melt".toList,
+   "reindex".toList, "rename".toList, "replace".toList, "sort_index".toList, "take".toList, "transpose".toList,
+   "unstack".toList]
+
+/-- which objects are looked at for metadata, per `__finalize__` method -/
+def sources (method : Option Str) (o : Other) : Except Err (List (Option Ref) × Bool) :=
+  match method with
+  | none => .ok ([o.own], false)
+  | some m =>
+    if m ∈ safeMethods then .ok ([o.own], false)
+    else if m = "merge".toList then
+      (match o.leftRight with | some (l, r) => .ok ([l, r], false) | none => .error .attributeError)
+    else if m = "concat".toList then
+      (match o.objs with | some os => .ok (os, false) | none => .error .attributeError)
+    else .ok ([o.own], true)
+
+/-- default unit of a dtype kind (table_metadata.py `_unit_from_dtype_kind`) -/
+def defaultUnit (k : Char) : Option Str :=
+  if k = 'b' then some "onoff".toList
+  else if k = 'i' ∨ k = 'u' ∨ k = 'f' ∨ k = 'M' then some "-".toList
+  else if k = 'O' ∨ k = 'S' ∨ k = 'U' then some "text".toList
+  else none
+
+/-- `"Pandas " + str(method)` -/
+def operation (method : Option Str) : Str :=
+  "Pandas ".toList ++ (match method with | none => "None".toList | some m => m)
+
+end Spec
+
+theorem selectSources_spec (m : Option Str) (o : Other) : selectSources m o = Spec.sources m o := by
+  unfold selectSources Spec.sources
+  rw [safe_methods_pinned]
+  rfl
+
+theorem unitFromKind_spec (k : Char) : unitFromKind k = Spec.defaultUnit k := by
+  unfold unitFromKind Spec.defaultUnit
+  rw [unit_from_dtype_kind_pinned]
+  simp only [assoc]
+  by_cases h1 : 'b' = k
+  · subst h1; simp
+  by_cases h2 : 'i' = k
+  · subst h2; simp
+  by_cases h3 : 'u' = k
+  · subst h3; simp
+  by_cases h4 : 'f' = k
+  · subst h4; simp
+  by_cases h5 : 'M' = k
+  · subst h5; simp
+  by_cases h6 : 'O' = k
+  · subst h6; simp
+  by_cases h7 : 'S' = k
+  · subst h7; simp
+  by_cases h8 : 'U' = k
+  · subst h8; simp
+  have e1 : ¬ k = 'b' := fun e => h1 e.symm
+  have e2 : ¬ k = 'i' := fun e => h2 e.symm
+  have e3 : ¬ k = 'u' := fun e => h3 e.symm
+  have e4 : ¬ k = 'f' := fun e => h4 e.symm
+  have e5 : ¬ k = 'M' := fun e => h5 e.symm
+  have e6 : ¬ k = 'O' := fun e => h6 e.symm
+  have e7 : ¬ k = 'S' := fun e => h7 e.symm
+  have e8 : ¬ k = 'U' := fun e => h8 e.symm
+  simp [h1, h2, h3, h4, h5, h6, h7, h8, e1, e2, e3, e4, e5, e6, e7, e8]
+
+theorem pandasOp_spec (m : Option Str) : pandasOp m = Spec.operation m := by
+  cases m <;> rfl
+
+/-- unit registered for column `l` in info `d` -/
+def unitOf (h : Heap) (d : Nat) (l : Label) : Option Str :=
+  match h.infos.get d with
+  | none => none
+  | some inf => match h.dicts.get inf.cols with
+    | none => none
+    | some es => unitIn h es l
+
+/-- unit of column `l` in the first source, in order, that has a column `l` -/
+def firstUnit (h : Heap) (data : List Ref) (l : Label) : Option Str :=
+  data.findSome? (fun d => unitOf h d l)
+
+theorem readEntries_unit {h : Heap} {es : List (Label × Ref)} {cs : List (Label × ColMeta)}
+    (hr : readEntries h es = .ok cs) (l : Label) : (assoc cs l).map (fun c => c.unit) = unitIn h es l := by
+  induction es generalizing cs with
+  | nil => simp [readEntries] at hr; subst hr; simp [assoc, unitIn]
+  | cons e rest ih =>
+    obtain ⟨k, r⟩ := e
+    unfold readEntries getCol at hr
+    cases hc : h.cols.get r with
+    | none => simp [hc] at hr
+    | some cm =>
+      simp only [hc] at hr
+      cases hrest : readEntries h rest with
+      | error e => simp [hrest] at hr
+      | ok cs' =>
+        simp [hrest] at hr
+        subst hr
+        have := ih hrest
+        by_cases hk : k = l
+        · simp [assoc, unitIn, hk, hc]
+        · simp [assoc, hk]
+          simpa [unitIn, assoc, hk] using this
+
+theorem colsOf_unit {h : Heap} {d : Nat} {cs : List (Label × ColMeta)} (hc : colsOf h d = .ok cs) (l : Label) :
+    (assoc cs l).map (fun c => c.unit) = unitOf h d l := by
+  unfold colsOf getInfo getDict at hc
+  unfold unitOf
+  cases hi : h.infos.get d with
+  | none => simp [hi] at hc
+  | some inf =>
+    simp only [hi] at hc
+    cases hes : h.dicts.get inf.cols with
+    | none => simp [hes] at hc
+    | some es =>
+      simp only [hes] at hc
+      simp only [hes]
+      exact readEntries_unit hc l
+
+theorem sourceItems_unit {h : Heap} {data : List Ref} {items : List (Label × ColMeta)}
+    (hs : sourceItems h data = .ok items) (l : Label) :
+    (assoc items l).map (fun c => c.unit) = firstUnit h data l := by
+  induction data generalizing items with
+  | nil => simp [sourceItems] at hs; subst hs; simp [assoc, firstUnit]
+  | cons d ds ih =>
+    unfold sourceItems at hs
+    cases hc : colsOf h d with
+    | error e => simp [hc] at hs
+    | ok cs =>
+      simp only [hc] at hs
+      cases hrest : sourceItems h ds with
+      | error e => simp [hrest] at hs
+      | ok rest =>
+        simp [hrest] at hs
+        subst hs
+        rw [assoc_append]
+        have h1 := colsOf_unit hc l
+        have h2 := ih hrest
+        unfold firstUnit at h2 ⊢
+        simp only [List.findSome?_cons]
+        rw [← h1]
+        cases ha : assoc cs l with
+        | some c => simp
+        | none => simpa using h2
+
+theorem sourceItems_mem {h : Heap} {data : List Ref} {items : List (Label × ColMeta)}
+    (hs : sourceItems h data = .ok items) {d : Nat} (hd : d ∈ data) {l : Label} {u : Str}
+    (hu : unitOf h d l = some u) : ∃ c, (l, c) ∈ items ∧ c.unit = u := by
+  induction data generalizing items with
+  | nil => simp at hd
+  | cons d0 ds ih =>
+    unfold sourceItems at hs
+    cases hc : colsOf h d0 with
+    | error e => simp [hc] at hs
+    | ok cs =>
+      simp only [hc] at hs
+      cases hrest : sourceItems h ds with
+      | error e => simp [hrest] at hs
+      | ok rest =>
+        simp [hrest] at hs
+        subst hs
+        rcases List.mem_cons.1 hd with rfl | hd
+        · have h1 := colsOf_unit hc l
+          rw [hu] at h1
+          cases ha : assoc cs l with
+          | none => simp [ha] at h1
+          | some c =>
+            simp [ha] at h1
+            exact ⟨c, List.mem_append_left _ (assoc_mem ha), h1⟩
+        · obtain ⟨c, hc1, hc2⟩ := ih hrest hd
+          exact ⟨c, List.mem_append_right _ hc1, hc2⟩
+
+/-! ## finalize_result -/
+
+/-- **table frame iff some selected source carries info** (and the fall-back warns, and leaves the
+    store untouched) -/
+theorem finalize_result_kind {h : Heap} {m : Option Str} {oi : Option Ref} {o : Other} {fr : Frame}
+    {h' : Heap} {res : Res} {w : List Warn} (hf : finalize h m oi o fr = .ok (h', res, w)) :
+    ∃ src warned, Spec.sources m o = .ok (src, warned) ∧
+      ((∃ i, res = .table i) ↔ (∃ d, some d ∈ src)) ∧
+      (res = .plain → Warn.fallback ∈ w ∧ h' = h) ∧
+      (warned = true → Warn.unknownMethod ∈ w) := by
+  unfold finalize at hf
+  cases hc : combine h m oi o fr.labels with
+  | error e => simp [hc] at hf
+  | ok p =>
+    obtain ⟨hC, ri, w'⟩ := p
+    cases ri with
+    | none =>
+      simp [hc] at hf
+      obtain ⟨rfl, rfl, rfl⟩ := hf
+      obtain ⟨rfl, src, warned, hsel, hdata, hw⟩ := combine_none hc
+      refine ⟨src, warned, by rw [← selectSources_spec]; exact hsel, ?_, ?_, ?_⟩
+      · constructor
+        · rintro ⟨i, hi⟩; cases hi
+        · rintro ⟨d, hd⟩
+          have : d ∈ src.filterMap id := List.mem_filterMap.2 ⟨some d, hd, rfl⟩
+          rw [hdata] at this; cases this
+      · intro _; exact ⟨by simp, rfl⟩
+      · intro hwarn; subst hw; simp [hwarn]
+    | some i =>
+      simp only [hc] at hf
+      cases hcd : checkDataframe hC i fr with
+      | error e => simp [hcd] at hf
+      | ok hF =>
+        simp [hcd] at hf
+        obtain ⟨rfl, rfl, rfl⟩ := hf
+        obtain ⟨src, warned, d0, rest, parents, ns1, ns, tm0, h1, mref, items, h2, acc,
+          hsel, hw, hdata, _⟩ := combine_some hc
+        refine ⟨src, warned, by rw [← selectSources_spec]; exact hsel, ?_, ?_, ?_⟩
+        · constructor
+          · intro _
+            have : d0 ∈ src.filterMap id := by rw [hdata]; exact List.mem_cons_self
+            obtain ⟨a, ha, ha'⟩ := List.mem_filterMap.1 this
+            simp at ha'
+            subst ha'
+            exact ⟨d0, ha⟩
+          · intro _; exact ⟨i, rfl⟩
+        · intro hp; cases hp
+        · intro hwarn; subst hw; simp [hwarn]
+
+theorem obsCols_of_fresh {h : Heap} (es : List (Label × Ref))
+    (hf : ∀ l (r : Nat), (l, r) ∈ es → ∃ cm, h.cols.get r = some cm ∧
+      ∀ (f : Nat), cm.dispFmt = some f → (h.fmts.get f).isSome) :
+    ∃ cs, obsCols h es = some cs := by
+  suffices hs : (obsCols h es).isSome by
+    cases ho : obsCols h es with
+    | none => simp [ho] at hs
+    | some cs => exact ⟨cs, rfl⟩
+  induction es with
+  | nil => rfl
+  | cons e rest ih =>
+    obtain ⟨l, r⟩ := e
+    have hrest := ih (fun l r hm => hf l r (List.mem_cons_of_mem _ hm))
+    obtain ⟨cm, hcm, hfm⟩ := hf l r List.mem_cons_self
+    unfold obsCols
+    rw [hcm]
+    cases hcs : obsCols h rest with
+    | none => simp [hcs] at hrest
+    | some cs =>
+      cases hdf : cm.dispFmt with
+      | none => simp [hdf]
+      | some f =>
+        have := hfm f hdf
+        cases hg : h.fmts.get f with
+        | none => simp [hg] at this
+        | some sp => simp [hdf, hg]
+
+/-- **name, destinations, origin, input ancestors** of the result: the first source's name and
+    destinations (as a set: duplicates erased), a derived origin whose operation is
+    `"Pandas " ++ method`, whose parents are the origins of the sources carrying info (in order) and
+    whose input ancestors are therefore the concatenation of the sources' input ancestors -/
+theorem finalize_result_meta {h : Heap} {m : Option Str} {oi : Option Ref} {o : Other} {fr : Frame}
+    {h' : Heap} {i : Nat} {w : List Warn} (hf : finalize h m oi o fr = .ok (h', .table i, w)) :
+    ∃ src warned d0 rest tm0 xs parents obs,
+      Spec.sources m o = .ok (src, warned) ∧ src.filterMap id = d0 :: rest ∧
+      metaOf h d0 = .ok tm0 ∧ h.dsets.get tm0.dests = some xs ∧ originsOf h (d0 :: rest) = .ok parents ∧
+      observe h' i = some obs ∧
+      obs.name = tm0.name ∧ obs.dests = xs.eraseDups ∧
+      obs.origin = .node none parents (some (Spec.operation m)) ∧
+      obs.origin.ancestors = Origin.ancestorsList parents ∧
+      obs.transposed = false := by
+  obtain ⟨src, warned, d0, rest, parents, strict, tm0, xs, items, ordered, F⟩ := finalize_table_facts hf
+  obtain ⟨cs, hcs⟩ := obsCols_of_fresh (h := h') ordered (fun l r hm => by
+    obtain ⟨_, _, cm, hcm, hfm⟩ := F.fresh l r hm
+    exact ⟨cm, hcm, fun f hf => (hfm f hf).2.2⟩)
+  refine ⟨src, warned, d0, rest, tm0, xs, parents,
+    ⟨tm0.name, xs.eraseDups, .node none parents (some (pandasOp m)), false, strict, cs⟩,
+    by rw [← selectSources_spec]; exact F.sel, F.src_data, F.meta0, F.dests0, F.origins, ?_, rfl, rfl,
+    by rw [pandasOp_spec], by simp [Origin.ancestors], rfl⟩
+  unfold observe
+  rw [F.info]
+  simp only []
+  rw [F.tmeta]
+  simp only []
+  rw [F.dests]
+  simp only []
+  rw [F.dict]
+  simp [hcs]
+
+/-- input ancestors of a derived origin = the concatenation of its parents' input ancestors -/
+theorem ancestors_concat (parents : List Origin) (f : Origin → List Str)
+    (hp : ∀ p, p ∈ parents → p.ancestors = .ok (f p)) :
+    Origin.ancestorsList parents = .ok (parents.flatMap f) := by
+  induction parents with
+  | nil => simp [Origin.ancestorsList]
+  | cons p ps ih =>
+    have h1 := hp p List.mem_cons_self
+    have h2 := ih (fun q hq => hp q (List.mem_cons_of_mem _ hq))
+    simp [Origin.ancestorsList, h1, h2]
+
+/-- **units**: exactly the result frame's columns are registered (on a non-empty frame); a column
+    that some source has keeps the unit it has in the first such source; a column no source has
+    gets the default unit of its dtype kind -/
+theorem finalize_result_units {h : Heap} {m : Option Str} {oi : Option Ref} {o : Other} {fr : Frame}
+    {h' : Heap} {i : Nat} {w : List Warn} (hf : finalize h m oi o fr = .ok (h', .table i, w)) :
+    ∃ src warned, Spec.sources m o = .ok (src, warned) ∧
+      ∀ l, unitOf h' i l =
+        if l ∈ fr.labels then
+          match firstUnit h (src.filterMap id) l with
+          | some u => some u
+          | none => if fr.empty then none else (assoc (kinds fr.cols) l).bind Spec.defaultUnit
+        else none := by
+  obtain ⟨src, warned, d0, rest, parents, strict, tm0, xs, items, ordered, F⟩ := finalize_table_facts hf
+  refine ⟨src, warned, by rw [← selectSources_spec]; exact F.sel, ?_⟩
+  intro l
+  have hu := F.units l
+  have hs := sourceItems_unit F.src_items l
+  rw [F.src_data, ← hs]
+  unfold unitOf
+  rw [F.info]
+  simp only []
+  rw [F.dict]
+  simp only []
+  rw [hu]
+  have hk : unitFromKind = Spec.defaultUnit := funext unitFromKind_spec
+  rw [hk]
+  cases assoc items l <;> rfl
+
+/-! ## combine_refuses_unit_clash -/
+
+/-- **a unit clash is refused**: when two selected sources register a surviving column with
+    different units, `__finalize__` raises (it never returns, neither a table frame nor a plain one) -/
+theorem combine_refuses_unit_clash {h : Heap} {m : Option Str} {oi : Option Ref} {o : Other} {fr : Frame}
+    {src : List (Option Ref)} {warned : Bool} (hsel : Spec.sources m o = .ok (src, warned))
+    {d1 d2 : Nat} (h1 : some d1 ∈ src) (h2 : some d2 ∈ src) {l : Label} (hl : l ∈ fr.labels)
+    {u1 u2 : Str} (hu1 : unitOf h d1 l = some u1) (hu2 : unitOf h d2 l = some u2) (hne : u1 ≠ u2) :
+    ∃ e, finalize h m oi o fr = .error e := by
+  cases hf : finalize h m oi o fr with
+  | error e => exact ⟨e, rfl⟩
+  | ok p =>
+    exfalso
+    obtain ⟨h', res, w⟩ := p
+    cases res with
+    | plain =>
+      obtain ⟨src', warned', hsel', hiff, _, _⟩ := finalize_result_kind hf
+      rw [hsel] at hsel'
+      obtain ⟨rfl, rfl⟩ := Prod.mk.inj (Except.ok.inj hsel')
+      obtain ⟨i, hi⟩ := hiff.2 ⟨d1, h1⟩
+      cases hi
+    | table i =>
+      obtain ⟨src', warned', d0, rest, parents, strict, tm0, xs, items, ordered, F⟩ := finalize_table_facts hf
+      have hsel' := F.sel
+      rw [selectSources_spec, hsel] at hsel'
+      obtain ⟨rfl, rfl⟩ := Prod.mk.inj (Except.ok.inj hsel')
+      have m1 : d1 ∈ d0 :: rest := by rw [← F.src_data]; exact List.mem_filterMap.2 ⟨some d1, h1, rfl⟩
+      have m2 : d2 ∈ d0 :: rest := by rw [← F.src_data]; exact List.mem_filterMap.2 ⟨some d2, h2, rfl⟩
+      obtain ⟨c1, hc1, e1⟩ := sourceItems_mem F.src_items m1 hu1
+      obtain ⟨c2, hc2, e2⟩ := sourceItems_mem F.src_items m2 hu2
+      have := F.agree l c1 c2 hl hc1 hc2
+      rw [e1, e2] at this
+      exact hne this
+
+theorem copyFmt_err {h : Heap} {f : Nat} {e : Err} (he : copyFmt h f = .error e) : e = .attributeError := by
+  unfold copyFmt at he
+  cases hf : h.fmts.get f with
+  | none => simp [hf] at he; exact he.symm
+  | some s => simp [hf] at he
+
+theorem updateFrom_err {h : Heap} {a : Nat} {b : ColMeta} {e : Err} (he : updateFrom h a b = .error e) :
+    e = .attributeError := by
+  unfold updateFrom at he
+  cases hs : h.cols.get a with
+  | none => simp [hs] at he; exact he.symm
+  | some s =>
+    simp only [hs] at he
+    split at he
+    · rename_i f _ _
+      cases hc : copyFmt h f with
+      | error e' => simp [hc] at he; subst he; exact copyFmt_err hc
+      | ok p => simp [hc] at he
+    · simp at he
+
+theorem copyCol_err {h : Heap} {c : ColMeta} {e : Err} (he : copyCol h c = .error e) : e = .attributeError := by
+  unfold copyCol at he
+  simp only at he
+  split at he
+  · rename_i e' hu
+    simp at he; subst he
+    exact updateFrom_err hu
+  · simp at he
+
+/-- the refusal is an `InvalidTableCombineError` only for a genuine disagreement: the loop raises it
+    only in the branch comparing two different units -/
+theorem combineStep_clash_only {out : List Label} {st : Heap × Acc} {it : Label × ColMeta}
+    (he : combineStep out st it = .error .invalidTableCombine) :
+    ∃ col cc, assoc st.2 it.1 = some col ∧ st.1.cols.get col = some cc ∧ cc.unit ≠ it.2.unit := by
+  unfold combineStep at he
+  by_cases hin : it.1 ∈ out
+  · simp only [hin, if_true] at he
+    cases has : assoc st.2 it.1 with
+    | none =>
+      simp only [has] at he
+      cases hcc : copyCol st.1 it.2 with
+      | error e =>
+        simp [hcc] at he
+        subst he
+        have := copyCol_err hcc
+        cases this
+      | ok p => simp [hcc] at he
+    | some col =>
+      simp only [has] at he
+      cases hcol : st.1.cols.get col with
+      | none => simp [hcol] at he
+      | some cc =>
+        simp only [hcol] at he
+        by_cases hu : cc.unit = it.2.unit
+        · simp only [hu, if_true] at he
+          cases huf : updateFrom st.1 col it.2 with
+          | error e =>
+            simp [huf] at he
+            subst he
+            have := updateFrom_err huf
+            cases this
+          | ok h1 => simp [huf] at he
+        · exact ⟨col, cc, rfl, hcol, hu⟩
+  · simp [hin] at he
+
+/-! ## degrade_or_refuse -/
+
+/-- **degrade or refuse, never a mislabelled table**: whatever the method, when no selected source
+    carries info the outcome is an error or the plain frame with the fall-back warning — never a
+    table frame.  (What `__finalize__` controls; operations whose result pandas builds without
+    calling `__finalize__` are outside the model and only observed by the harness.) -/
+theorem degrade_or_refuse {h : Heap} {m : Option Str} {oi : Option Ref} {o : Other} {fr : Frame}
+    {src : List (Option Ref)} {warned : Bool} (hsel : Spec.sources m o = .ok (src, warned))
+    (hno : ∀ d, some d ∉ src) :
+    (∃ e, finalize h m oi o fr = .error e) ∨
+    (∃ w, finalize h m oi o fr = .ok (h, .plain, w) ∧ Warn.fallback ∈ w) := by
+  cases hf : finalize h m oi o fr with
+  | error e => exact Or.inl ⟨e, rfl⟩
+  | ok p =>
+    obtain ⟨h', res, w⟩ := p
+    obtain ⟨src', warned', hsel', hiff, hplain, _⟩ := finalize_result_kind hf
+    rw [hsel] at hsel'
+    obtain ⟨rfl, rfl⟩ := Prod.mk.inj (Except.ok.inj hsel')
+    cases res with
+    | plain =>
+      obtain ⟨hw, rfl⟩ := hplain rfl
+      exact Or.inr ⟨w, rfl, hw⟩
+    | table i =>
+      obtain ⟨d, hd⟩ := hiff.1 ⟨i, rfl⟩
+      exact absurd hd (hno d)
+
+
+/-! ## no_alias -/
+
+/-- **no aliasing**: `__finalize__` leaves every existing object as it is, and every mutable object
+    reachable from the result's info — the info, its `TableMetadata`, the destinations set, the
+    columns dict, every `ColumnMetadata`, every `ColumnFormat` — has been allocated by this very call -/
+theorem no_alias {h : Heap} {m : Option Str} {oi : Option Ref} {o : Other} {fr : Frame}
+    {h' : Heap} {i : Nat} {w : List Warn} (hf : finalize h m oi o fr = .ok (h', .table i, w)) :
+    HeapExt h h' ∧ ∀ x, x ∈ reach h' i → locFresh h x ∧ locOld h' x := by
+  obtain ⟨src, warned, d0, rest, parents, strict, tm0, xs, items, ordered, F⟩ := finalize_table_facts hf
+  refine ⟨F.ext, ?_⟩
+  intro x hx
+  rw [mem_reach] at hx
+  rcases hx with rfl | ⟨inf, hi, h1⟩
+  · exact ⟨by rw [F.info_ref]; exact Nat.le_refl _, by
+      show i < h'.infos.next
+      rw [F.infos_next, F.info_ref]; exact Nat.lt_succ_self _⟩
+  · rw [F.info] at hi
+    have : inf = ⟨h.tmetas.next, h.dicts.next, some fr.state⟩ := (Option.some.inj hi).symm
+    subst this
+    rcases h1 with rfl | rfl | ⟨tm, htm, rfl⟩ | ⟨es, l, r, hes, hm, h1⟩
+    · exact ⟨Nat.le_refl _, by show h.tmetas.next < h'.tmetas.next; rw [F.tmetas_next]; exact Nat.lt_succ_self _⟩
+    · exact ⟨Nat.le_refl _, by show h.dicts.next < h'.dicts.next; rw [F.dicts_next]; exact Nat.lt_succ_self _⟩
+    · rw [F.tmeta] at htm
+      have : tm = ⟨tm0.name, h.dsets.next, .node none parents (some (pandasOp m)), false, strict⟩ :=
+        (Option.some.inj htm).symm
+      subst this
+      exact ⟨Nat.le_refl _, by show h.dsets.next < h'.dsets.next; rw [F.dsets_next]; exact Nat.lt_succ_self _⟩
+    · rw [F.dict] at hes
+      have : es = ordered := (Option.some.inj hes).symm
+      subst this
+      obtain ⟨b1, b2, cm, hcm, hfm⟩ := F.fresh l r hm
+      rcases h1 with rfl | ⟨cm2, f, hc2, hf2, rfl⟩
+      · exact ⟨b1, b2⟩
+      · rw [hcm] at hc2
+        have : cm = cm2 := Option.some.inj hc2
+        subst this
+        obtain ⟨c1, c2, _⟩ := hfm f hf2
+        exact ⟨c1, c2⟩
+
+/-- two infos are **separated**: both exist completely and no mutable object is reachable from both -/
+structure Sep (h : Heap) (a b : Nat) : Prop where
+  alloc_a : Alloc h a
+  alloc_b : Alloc h b
+  disjoint : ∀ x, x ∈ reach h a → x ∉ reach h b
+
+theorem Sep.symm {h : Heap} {a b : Nat} (s : Sep h a b) : Sep h b a :=
+  ⟨s.alloc_b, s.alloc_a, fun x hb ha => s.disjoint x ha hb⟩
+
+/-- the result of `__finalize__` is separated from every info that existed before — in particular
+    from each of its sources — and that info is observed exactly as before -/
+theorem finalize_separates {h : Heap} {m : Option Str} {oi : Option Ref} {o : Other} {fr : Frame}
+    {h' : Heap} {i : Nat} {w : List Warn} (hf : finalize h m oi o fr = .ok (h', .table i, w))
+    {s : Nat} (hs : Alloc h s) : Sep h' i s ∧ observe h' s = observe h s := by
+  obtain ⟨ext, hfresh⟩ := no_alias hf
+  have hag : ∀ x, x ∈ reach h s → AgreeOn h h' x := fun x hx => ext.agree (hs x hx)
+  refine ⟨⟨fun x hx => (hfresh x hx).2, ?_, ?_⟩, observe_congr hag⟩
+  · intro x hx
+    exact ext.old (hs x ((reach_congr hag x).1 hx))
+  · intro x hx hx'
+    exact not_old_of_fresh (hfresh x hx).1 (hs x ((reach_congr hag x).1 hx'))
+
+/-! ## mutation_independence -/
+
+/-- a change confined to what is reachable from `a` is invisible from a separated `b`, and the two
+    stay separated -/
+theorem frame_preserves_other {h h' : Heap} {a b : Nat} (hf : FrameOf h h' a) (sep : Sep h a b) :
+    observe h' b = observe h b ∧ Sep h' a b := by
+  have hag : ∀ x, x ∈ reach h b → AgreeOn h h' x := fun x hx =>
+    hf.agree x (sep.alloc_b x hx) (fun hxa => sep.disjoint x hxa hx)
+  refine ⟨observe_congr hag, ⟨fun x hx => (hf.grow x hx).2, ?_, ?_⟩⟩
+  · intro x hx
+    exact hf.mono x (sep.alloc_b x ((reach_congr hag x).1 hx))
+  · intro x hx hx'
+    have hxb := (reach_congr hag x).1 hx'
+    rcases (hf.grow x hx).1 with h1 | h1
+    · exact sep.disjoint x h1 hxb
+    · exact not_old_of_fresh h1 (sep.alloc_b x hxb)
+
+/-- **one mutation** (set unit / set name / add destination / add column / display unit / format)
+    on `a` changes no observation of a separated `b` -/
+theorem step_independence {h : Heap} {a b : Nat} {mu : Mut} {h' : Heap} (sep : Sep h a b)
+    (hm : mutate h a mu = .ok h') : observe h' b = observe h b ∧ Sep h' a b :=
+  frame_preserves_other (mutate_frame hm sep.alloc_a) sep
+
+/-- **any sequence of mutations** on one of two separated infos leaves every observation of the
+    other unchanged, and they remain separated -/
+theorem mutation_independence {a b : Nat} (ms : List Mut) :
+    ∀ {h h' : Heap}, Sep h a b → mutateAll h a ms = .ok h' → observe h' b = observe h b ∧ Sep h' a b := by
+  induction ms with
+  | nil =>
+    intro h h' sep hm
+    simp [mutateAll] at hm
+    subst hm
+    exact ⟨rfl, sep⟩
+  | cons mu rest ih =>
+    intro h h' sep hm
+    unfold mutateAll at hm
+    cases h1 : mutate h a mu with
+    | error e => simp [h1] at hm
+    | ok hmid =>
+      simp only [h1] at hm
+      obtain ⟨o1, s1⟩ := step_independence sep h1
+      obtain ⟨o2, s2⟩ := ih s1 hm
+      exact ⟨by rw [o2, o1], s2⟩
+
+/-- an arbitrary interleaved history of mutations on two infos (`true` = on `a`, `false` = on `b`) -/
+def runHistory (h : Heap) (a b : Nat) : List (Bool × Mut) → Except Err Heap
+  | [] => .ok h
+  | (side, mu) :: rest =>
+    match mutate h (if side then a else b) mu with
+    | .error e => .error e
+    | .ok h1 => runHistory h1 a b rest
+
+/-- **histories**: along any interleaved history separation is never lost — so at every step the
+    mutation performed on one side leaves the other side's observation unchanged
+    (`step_independence` applies at each prefix); in particular a history that only touches one
+    side leaves the other side exactly as it was -/
+theorem history_independence {a b : Nat} (steps : List (Bool × Mut)) :
+    ∀ {h h' : Heap}, Sep h a b → runHistory h a b steps = .ok h' →
+      Sep h' a b ∧
+      (steps.all (fun s => s.1) = true → observe h' b = observe h b) ∧
+      (steps.all (fun s => !s.1) = true → observe h' a = observe h a) := by
+  induction steps with
+  | nil =>
+    intro h h' sep hr
+    simp [runHistory] at hr
+    subst hr
+    exact ⟨sep, fun _ => rfl, fun _ => rfl⟩
+  | cons st rest ih =>
+    obtain ⟨side, mu⟩ := st
+    intro h h' sep hr
+    unfold runHistory at hr
+    cases side with
+    | true =>
+      simp only [if_true] at hr
+      cases h1 : mutate h a mu with
+      | error e => simp [h1] at hr
+      | ok hmid =>
+        simp only [h1] at hr
+        obtain ⟨o1, s1⟩ := step_independence sep h1
+        obtain ⟨s2, oa, ob⟩ := ih s1 hr
+        refine ⟨s2, ?_, ?_⟩
+        · intro hall
+          simp at hall
+          rw [oa (by simpa using hall), o1]
+        · intro hall; simp at hall
+    | false =>
+      simp only [Bool.false_eq_true, if_false] at hr
+      cases h1 : mutate h b mu with
+      | error e => simp [h1] at hr
+      | ok hmid =>
+        simp only [h1] at hr
+        obtain ⟨o1, s1⟩ := step_independence sep.symm h1
+        obtain ⟨s2, oa, ob⟩ := ih s1.symm hr
+        refine ⟨s2, ?_, ?_⟩
+        · intro hall; simp at hall
+        · intro hall
+          simp at hall
+          rw [ob (by simpa using hall), o1]
+
+/-- `unitOf` is part of what `observe` shows: equal observations, equal units -/
+theorem unitOf_of_observe {h h' : Heap} {s s' : Nat} {ob : Obs} (h1 : observe h s = some ob)
+    (h2 : observe h' s' = some ob) (l : Label) : unitOf h s l = unitOf h' s' l := by
+  have key : ∀ (h : Heap) (s : Nat) (ob : Obs), observe h s = some ob →
+      unitOf h s l = (assoc (ob.cols.map (fun c => (c.label, c.unit))) l) := by
+    intro h s ob ho
+    unfold observe at ho
+    unfold unitOf
+    cases hi : h.infos.get s with
+    | none => simp [hi] at ho
+    | some inf =>
+      simp only [hi] at ho ⊢
+      cases htm : h.tmetas.get inf.tmeta with
+      | none => simp [htm] at ho
+      | some tm =>
+        simp only [htm] at ho
+        cases hds : h.dsets.get tm.dests with
+        | none => simp [hds] at ho
+        | some ds =>
+          simp only [hds] at ho
+          cases hes : h.dicts.get inf.cols with
+          | none => simp [hes] at ho
+          | some es =>
+            simp only [hes] at ho ⊢
+            cases hoc : obsCols h es with
+            | none => simp [hoc] at ho
+            | some cs =>
+              simp [hoc] at ho
+              subst ho
+              simp only []
+              clear hes
+              induction es generalizing cs with
+              | nil => simp [obsCols] at hoc; subst hoc; simp [unitIn, assoc]
+              | cons e rest ih =>
+                obtain ⟨k, r⟩ := e
+                unfold obsCols at hoc
+                cases hc : h.cols.get r with
+                | none => simp [hc] at hoc
+                | some cm =>
+                  simp only [hc] at hoc
+                  split at hoc
+                  · simp at hoc
+                  · rename_i fo _
+                    cases hrest : obsCols h rest with
+                    | none => simp [hrest] at hoc
+                    | some cs' =>
+                      simp [hrest] at hoc
+                      subst hoc
+                      have := ih cs' hrest
+                      by_cases hk : k = l
+                      · simp [unitIn, assoc, hk, hc]
+                      · simpa [unitIn, assoc, hk] using this
+  rw [key h s ob h1, key h' s' ob h2]
+
+
+/-! ## rewrap_independent -/
+
+theorem mem_dictSet {β} {xs : List (Label × β)} {k : Label} {v : β} {l : Label} {r : β}
+    (hm : (l, r) ∈ dictSet xs k v) : (l, r) ∈ xs ∨ (l, r) = (k, v) := by
+  induction xs with
+  | nil => simp [dictSet] at hm; exact Or.inr (by rw [hm.1, hm.2])
+  | cons e rest ih =>
+    obtain ⟨k', v'⟩ := e
+    unfold dictSet at hm
+    by_cases hk : k' = k
+    · simp [hk] at hm
+      rcases hm with hm | hm
+      · exact Or.inr (by rw [hm.1, hm.2])
+      · exact Or.inl (List.mem_cons_of_mem _ hm)
+    · simp [hk] at hm
+      rcases hm with hm | hm
+      · exact Or.inl (by rw [hm.1, hm.2]; exact List.mem_cons_self)
+      · rcases ih hm with h1 | h1
+        · exact Or.inl (List.mem_cons_of_mem _ h1)
+        · exact Or.inr h1
+
+/-- the columns built by `{col: ColumnMetadata(unit) for …}`: new objects without display fields -/
+structure ZipInv (b h : Heap) (acc : Acc) : Prop where
+  tmetas : h.tmetas = b.tmetas
+  dsets : h.dsets = b.dsets
+  infos : h.infos = b.infos
+  dicts : h.dicts = b.dicts
+  fmts : h.fmts = b.fmts
+  cols : Store.Ext b.cols h.cols
+  fresh : ∀ l (r : Nat), (l, r) ∈ acc → b.cols.next ≤ r ∧ r < h.cols.next ∧ ∃ u, h.cols.get r = some ⟨u, none, none⟩
+
+theorem zipCols_inv {b : Heap} (pairs : List (Label × Str)) :
+    ∀ {h : Heap} {acc : Acc}, ZipInv b h acc → ZipInv b (zipCols (h, acc) pairs).1 (zipCols (h, acc) pairs).2 := by
+  induction pairs with
+  | nil => intro h acc inv; simpa [zipCols] using inv
+  | cons p rest ih =>
+    obtain ⟨l0, u0⟩ := p
+    intro h acc inv
+    unfold zipCols
+    simp only [Store.alloc]
+    apply ih
+    exact {
+      tmetas := inv.tmetas, dsets := inv.dsets, infos := inv.infos, dicts := inv.dicts, fmts := inv.fmts
+      cols := ⟨by have := inv.cols.1; simp; omega, fun x hx => by
+        have : x ≠ h.cols.next := by have := inv.cols.1; omega
+        simp [this, inv.cols.2 x hx]⟩
+      fresh := by
+        intro l r hm
+        rcases mem_dictSet hm with hm | hm
+        · obtain ⟨a1, a2, u, a3⟩ := inv.fresh l r hm
+          have hne : @Ne Nat r h.cols.next := by omega
+          exact ⟨a1, by simp; omega, u, by simp [hne, a3]⟩
+        · obtain ⟨rfl, rfl⟩ := Prod.mk.inj hm
+          exact ⟨inv.cols.1, by simp, u0, by simp⟩ }
+
+/-- **re-wrapping** a table frame with overriding name / destinations / units / transposed builds a
+    new info out of new objects only: after the consultation `get_table_info` performs on the
+    original (`checkDataframe`, which every read access performs anyway) nothing that exists is
+    written to, and everything reachable from the new info is freshly allocated -/
+theorem rewrap_fresh {h : Heap} {i : Nat} {fr : Frame} {kw : Kw} {h' : Heap} {i' : Nat}
+    (hk : kw.isEmpty = false) (hr : rewrap h i fr kw = .ok (h', i')) :
+    ∃ h1, checkDataframe h i fr = .ok h1 ∧ HeapExt h1 h' ∧
+      ∀ x, x ∈ reach h' i' → locFresh h1 x ∧ locOld h' x := by
+  unfold rewrap at hr
+  simp only [hk, Bool.false_eq_true, if_false] at hr
+  cases hcd : checkDataframe h i fr with
+  | error e => simp [hcd] at hr
+  | ok h1 =>
+    refine ⟨h1, rfl, ?_⟩
+    simp only [hcd] at hr
+    cases hgi : getInfo h1 i with
+    | error e => simp [hgi] at hr
+    | ok inf =>
+      simp only [hgi] at hr
+      cases hgt : getTMeta h1 inf.tmeta with
+      | error e => simp [hgt] at hr
+      | ok tm =>
+        simp only [hgt] at hr
+        cases hco : colsOf h1 i with
+        | error e => simp [hco] at hr
+        | ok cs =>
+          simp only [hco] at hr
+          -- the destinations object handed to the constructor
+          generalize hd : (match kw.dests with
+            | none => (h1, tm.dests)
+            | some xs => ({ h1 with dsets := (h1.dsets.alloc xs).1 }, (h1.dsets.alloc xs).2)) = hd2 at hr
+          obtain ⟨h2, d⟩ := hd2
+          have h2ext : HeapExt h1 h2 ∧ h2.cols = h1.cols ∧ h2.fmts = h1.fmts ∧ h2.dicts = h1.dicts ∧
+              h2.tmetas = h1.tmetas ∧ h2.infos = h1.infos := by
+            cases hkd : kw.dests with
+            | none =>
+              simp [hkd] at hd
+              obtain ⟨rfl, rfl⟩ := hd
+              exact ⟨HeapExt.refl _, rfl, rfl, rfl, rfl, rfl⟩
+            | some xs =>
+              simp [hkd] at hd
+              obtain ⟨rfl, rfl⟩ := hd
+              exact ⟨⟨Store.Ext.alloc _ _, Store.Ext.refl _, Store.Ext.refl _, Store.Ext.refl _,
+                Store.Ext.refl _, Store.Ext.refl _⟩, rfl, rfl, rfl, rfl, rfl⟩
+          simp only at hr
+          cases hnt : newTableMeta h2 (kw.name.getD tm.name) d tm.origin (kw.transposed.getD tm.transposed) tm.strict with
+          | error e => simp [hnt] at hr
+          | ok q =>
+            obtain ⟨h3, mref⟩ := q
+            simp only [hnt] at hr
+            obtain ⟨hmref, xs, hxs, hh3⟩ := newTableMeta_ok hnt
+            have zinv := zipCols_inv (b := h3) (fr.labels.zip (kw.units.getD (cs.map (fun c => c.2.unit))))
+              (h := h3) (acc := []) {
+                tmetas := rfl, dsets := rfl, infos := rfl, dicts := rfl, fmts := rfl
+                cols := Store.Ext.refl _
+                fresh := by intro l r hm; simp at hm }
+            generalize hz : zipCols (h3, []) (fr.labels.zip (kw.units.getD (cs.map (fun c => c.2.unit)))) = z at hr zinv
+            obtain ⟨h4, acc⟩ := z
+            simp only [Store.alloc] at hr
+            cases hcd2 : checkDataframe
+                { h4 with dicts := ⟨h4.dicts.next + 1, fun r => if r = h4.dicts.next then some acc else h4.dicts.get r⟩,
+                          infos := ⟨h4.infos.next + 1, fun r => if r = h4.infos.next then
+                            some ⟨mref, h4.dicts.next, none⟩ else h4.infos.get r⟩ } h4.infos.next fr with
+            | error e => simp [hcd2] at hr
+            | ok h6 =>
+              simp [hcd2] at hr
+              obtain ⟨rfl, rfl⟩ := hr
+              obtain ⟨hE12, c12, f12, di12, tm12, in12⟩ := h2ext
+              -- the heap handed to the second consultation
+              obtain ⟨inf5, hinf5, hcase⟩ := checkDataframe_ok hcd2
+              simp at hinf5
+              subst hinf5
+              rcases hcase with ⟨hlast, _⟩ | ⟨_, hdup, es, tm5, hU, accU, hes, htm5, hul, hF'⟩
+              · simp at hlast
+              simp at hes
+              subst hes
+              have hbound : ∀ l (r : Nat), (l, r) ∈ acc.filter (fun e => decide (e.1 ∈ fr.labels)) → r < h4.cols.next :=
+                fun l r hm => (zinv.fresh l r (List.mem_filter.1 hm).1).2.1
+              have upd := updLoop_inv (b := _) fr.cols hul (UpdInv.init fr.empty _ _ hbound)
+              simp only [List.nil_append] at upd
+              -- field by field: h3 from h2 from h1
+              have e3c : h3.cols = h1.cols := by rw [hh3]; exact c12
+              have e3f : h3.fmts = h1.fmts := by rw [hh3]; exact f12
+              have e3d : h3.dicts = h1.dicts := by rw [hh3]; exact di12
+              have e3i : h3.infos = h1.infos := by rw [hh3]; exact in12
+              have hcolsF : h6.cols = hU.cols := by rw [hF']
+              have hfmtsF : h6.fmts = h1.fmts := by
+                rw [hF']; show hU.fmts = _; rw [upd.fmts]; show h4.fmts = _; rw [zinv.fmts, e3f]
+              have hdsF : h6.dsets = h3.dsets := by
+                rw [hF']; show hU.dsets = _; rw [upd.dsets]; show h4.dsets = _; rw [zinv.dsets]
+              have htmF : h6.tmetas = h3.tmetas := by
+                rw [hF']; show hU.tmetas = _; rw [upd.tmetas]; show h4.tmetas = _; rw [zinv.tmetas]
+              have hdiF : h6.dicts = (⟨h1.dicts.next + 1, fun r => if r = h1.dicts.next then some es else h1.dicts.get r⟩ :
+                  Store (List (Label × Ref))).write h1.dicts.next
+                    (fr.labels.filterMap (fun l => (assoc accU l).map (fun r => (l, r)))) := by
+                rw [hF']; show hU.dicts.write _ _ = _; rw [upd.dicts]
+                show (⟨h4.dicts.next + 1, _⟩ : Store (List (Label × Ref))).write h4.dicts.next _ = _
+                rw [zinv.dicts, e3d]
+              have hinF : h6.infos = (⟨h1.infos.next + 1, fun r => if r = h1.infos.next then
+                  some ⟨mref, h1.dicts.next, none⟩ else h1.infos.get r⟩ : Store Info).write h1.infos.next
+                    ⟨mref, h1.dicts.next, some fr.state⟩ := by
+                rw [hF']; show hU.infos.write _ _ = _; rw [upd.infos]
+                show (⟨h4.infos.next + 1, _⟩ : Store Info).write h4.infos.next _ = _
+                rw [zinv.infos, e3i, zinv.dicts, e3d]
+              have hds3 : h3.dsets = (h2.dsets.alloc xs.eraseDups).1 := by rw [hh3]
+              have htm3 : h3.tmetas = (h2.tmetas.alloc ⟨kw.name.getD tm.name, d, tm.origin,
+                  kw.transposed.getD tm.transposed, tm.strict⟩).1.write h2.tmetas.next
+                  ⟨kw.name.getD tm.name, h2.dsets.next, tm.origin, kw.transposed.getD tm.transposed, tm.strict⟩ := by
+                rw [hh3]
+              have ext16 : HeapExt h1 h6 := {
+                dsets := by rw [hdsF, hds3]; exact Store.Ext.trans hE12.dsets (Store.Ext.alloc _ _)
+                fmts := Store.Ext.of_eq hfmtsF
+                cols := by
+                  rw [hcolsF, ← e3c]
+                  exact Store.Ext.trans zinv.cols upd.cols
+                dicts := by
+                  rw [hdiF]
+                  exact Store.Ext.write ⟨Nat.le_succ _, fun r hr => by
+                    have : r ≠ h1.dicts.next := Nat.ne_of_lt hr
+                    simp [this]⟩ _ _ (Nat.le_refl _)
+                tmetas := by
+                  rw [htmF, htm3, tm12]
+                  exact Store.Ext.write (Store.Ext.alloc _ _) _ _ (Nat.le_refl _)
+                infos := by
+                  rw [hinF]
+                  exact Store.Ext.write ⟨Nat.le_succ _, fun r hr => by
+                    have : r ≠ h1.infos.next := Nat.ne_of_lt hr
+                    simp [this]⟩ _ _ (Nat.le_refl _) }
+              refine ⟨ext16, ?_⟩
+              have hi'eq : h4.infos.next = h1.infos.next := by rw [zinv.infos, e3i]
+              intro x hx
+              rw [mem_reach] at hx
+              rcases hx with rfl | ⟨inf, hi, h1'⟩
+              · exact ⟨by show h1.infos.next ≤ h4.infos.next; rw [hi'eq]; exact Nat.le_refl _, by
+                  show h4.infos.next < h6.infos.next
+                  rw [hinF, hi'eq]; exact Nat.lt_succ_self _⟩
+              · rw [hinF, hi'eq] at hi
+                simp at hi
+                subst hi
+                rcases h1' with rfl | rfl | ⟨tm', htm', rfl⟩ | ⟨es', l, r, hes', hm, h1'⟩
+                · refine ⟨by show h1.tmetas.next ≤ mref; rw [hmref, tm12]; exact Nat.le_refl _, ?_⟩
+                  show mref < h6.tmetas.next
+                  rw [htmF, htm3, hmref]; exact Nat.lt_succ_self _
+                · refine ⟨Nat.le_refl _, ?_⟩
+                  show h1.dicts.next < h6.dicts.next
+                  rw [hdiF]; exact Nat.lt_succ_self _
+                · rw [htmF, htm3, hmref] at htm'
+                  simp at htm'
+                  subst htm'
+                  refine ⟨by show h1.dsets.next ≤ h2.dsets.next; exact hE12.dsets.1, ?_⟩
+                  show h2.dsets.next < h6.dsets.next
+                  rw [hdsF, hds3]; exact Nat.lt_succ_self _
+                · rw [hdiF] at hes'
+                  simp at hes'
+                  subst hes'
+                  have hacc := mem_ordered (fun l => assoc accU l) fr.labels l r hm
+                  have hbU : r < h6.cols.next := by rw [hcolsF]; exact upd.bound l r (assoc_mem hacc)
+                  have hcol : h1.cols.next ≤ r ∧ ∃ u, h6.cols.get r = some ⟨u, none, none⟩ := by
+                    cases hk' : assoc (es.filter (fun e => decide (e.1 ∈ fr.labels))) l with
+                    | some r0 =>
+                      have := upd.old l r0 hk'
+                      rw [hacc] at this
+                      have hrr : r = r0 := Option.some.inj this
+                      subst hrr
+                      obtain ⟨b1, b2, u, hu⟩ := zinv.fresh l r (List.mem_filter.1 (assoc_mem hk')).1
+                      refine ⟨by rw [← e3c]; exact b1, u, ?_⟩
+                      rw [hcolsF, upd.cols.2 r b2]; exact hu
+                    | none =>
+                      obtain ⟨_, b2, k, u, _, _, hget⟩ := upd.new l r hacc hk'
+                      refine ⟨?_, u, by rw [hcolsF, hget]⟩
+                      have := zinv.cols.1
+                      rw [e3c] at this
+                      exact Nat.le_trans this b2
+                  rcases h1' with rfl | ⟨cm2, f, hc2, hf2, rfl⟩
+                  · exact ⟨hcol.1, hbU⟩
+                  · obtain ⟨u, hu⟩ := hcol.2
+                    rw [hu] at hc2
+                    have : cm2 = ⟨u, none, none⟩ := (Option.some.inj hc2).symm
+                    subst this
+                    simp at hf2
+
+/-- **re-wrap independence**: the re-wrapped table and the original are separated, and the original
+    is observed exactly as the consultation left it — so by `mutation_independence` no later change
+    of one is visible through the other -/
+theorem rewrap_independent {h : Heap} {i : Nat} {fr : Frame} {kw : Kw} {h' : Heap} {i' : Nat}
+    (hk : kw.isEmpty = false) (hr : rewrap h i fr kw = .ok (h', i')) :
+    ∃ h1, checkDataframe h i fr = .ok h1 ∧
+      (Alloc h1 i → Sep h' i' i ∧ observe h' i = observe h1 i) := by
+  obtain ⟨h1, hc, ext, hfresh⟩ := rewrap_fresh hk hr
+  refine ⟨h1, hc, ?_⟩
+  intro hs
+  have hag : ∀ x, x ∈ reach h1 i → AgreeOn h1 h' x := fun x hx => ext.agree (hs x hx)
+  refine ⟨⟨fun x hx => (hfresh x hx).2, ?_, ?_⟩, observe_congr hag⟩
+  · intro x hx
+    exact ext.old (hs x ((reach_congr hag x).1 hx))
+  · intro x hx hx'
+    exact not_old_of_fresh (hfresh x hx).1 (hs x ((reach_congr hag x).1 hx'))
+
+/-- a re-wrap without overriding fields is the frame itself (no copy) -/
+theorem rewrap_no_kwargs {h : Heap} {i : Nat} {fr : Frame} {kw : Kw} (hk : kw.isEmpty = true) :
+    rewrap h i fr kw = .ok (h, i) := by
+  unfold rewrap
+  simp [hk]
+
 end Pdt.C05
